@@ -49,3 +49,16 @@ for _pid, _why in [
     ("C17", "token spans are produced inside chumsky combinator closures; no function boundary owns the span arithmetic, so no contract can state tiling"),
 ]:
     na(_pid, _why)
+
+prop("C02", ["sql_prec"],
+     not_covered="evaluation inside the database; dialect templates beyond the strengths they declare; sites that build SQL operands "
+                 "without translate_operand (process_concat, process_array_in, try_into_between) are not yet under contract")
+claim("C02",
+      "PARTIAL-CORE. Proved for all inputs on the real functions: the parenthesisation rule (needs_parentheses = documented rule, NP1); "
+      "translate_operand wraps exactly when the rule says so (TO1); translate_binary_operator passes each operand with the operator's own "
+      "strength/associativity on the correct side (TB1); process_null emits IS [NOT] NULL on the operand that is not the null literal, "
+      "whichever side null is on (NP5); wrap_in_parenthesis really wraps (WP2). Table obligations (one per row): for every constructible "
+      "(parent operator, child class, side) the real strength/associativity tables never leave an operand bare where SQLite's documented "
+      "grammar would re-associate it (NP2.*). NOT proved: that the database evaluates operators as documented.",
+      "Oracle = SQLite's documented precedence table (the executable grammar here). translate_expr is external (uninterpreted result, "
+      "Context state not modelled); sqlparser enums are mechanically generated skeletons; sqlparser's Display is trusted to print trees as written.")
